@@ -16,8 +16,8 @@ MANIFEST = {
             "anchors {A} and {A,B}; the same + 8 ions (11 molecules) with guessed anchors} x every permutation of the bond "
             "list (<= 3 bonds) x cell pairs (menu cell i on even frames, cell i+1 on odd frames; quick 10 cells incl. "
             "unreduced forms, thorough 24) x scatters: for <= 3 atoms every assignment of images {-1,0,1}^3 per atom "
-            "(27^2, 27^3 = 19683 frames; quick: diatomic complete, 3 atoms every single- and double-atom scatter = 2107, "
-            "i.e. every relative image configuration in {-1,0,1}^3), for larger systems the identity, every single-atom "
+            "(27^2, 27^3 = 19683 frames; quick: diatomic complete, 3 atoms: atom 0 in the home image and every assignment for "
+            "the other two = 729 frames, i.e. every relative image configuration; mix6 bond permutations 0 and 5 only), for larger systems the identity, every single-atom "
             "scatter, every single-bond cut with either side moved, every single-molecule shift x "
             "{make_molecules_whole, image_molecules(make_whole=True), image_molecules(make_whole=False)} x inplace in "
             "{False, True} x anchors explicit / guessed. Oracle per frame (float64, from the stored float32 data): new-old "
@@ -446,7 +446,7 @@ def run(ctx):
                      "1/length for angles" % C_TOL,
         "axes": {"systems": sorted({s["name"].split("/")[0] for s in systems}), "system_variants": len(systems),
                  "cells": [c["name"] for c in menu], "apis": ["make_molecules_whole", "image_molecules/mw=1", "image_molecules/mw=0"],
-                 "inplace": [False, True], "scatter": "27^n complete" if not quick else "27^2 complete; 3 atoms: all single+double-atom scatters",
+                 "inplace": [False, True], "scatter": "27^n complete" if not quick else "27^2 complete; 3 atoms: atom 0 fixed x 27^2 for the others",
                  "bond_length_fraction_of_min_width": BOND_FRAC},
     }
     return "exploration", cov
